@@ -1,3 +1,3 @@
 #!/bin/sh
 # replays this counterexample against the real build
-cd /repo && VERIF_SCRIPT=/verif/replays/C17/VHarnessWalletReclaim_ddc83042_0/script.json VERIF_RAW_SALT=0 GOFLAGS=-mod=mod GOPROXY=off go test -vet=off -count=1 -overlay /verif/replays/C17/VHarnessWalletReclaim_ddc83042_0/overlay.json -run ^TestVerifReplay_VHarnessWalletReclaim$ -v ./wallet
+cd /tmp/seedrepo_C17 && VERIF_SCRIPT=/verif/replays/C17/VHarnessWalletReclaim_ddc83042_0/script.json VERIF_RAW_SALT=0 GOFLAGS=-mod=mod GOPROXY=off go test -vet=off -count=1 -overlay /verif/replays/C17/VHarnessWalletReclaim_ddc83042_0/overlay.json -run ^TestVerifReplay_VHarnessWalletReclaim$ -v ./wallet
